@@ -71,19 +71,27 @@ def rule_chain(ctx):
         ctx.bad("CHAIN", "present", site, "expected one symbol-order write, found %d" % len(chain))
         return
     conds, loops, item = chain[0]
-    sorted_syms = ("upd", ("call", "FromIterator::from_iter", (("call", "Problem::symbols", (SELF,)),)), "sort_unstable", ())
-    alt_sorted = ("upd", ("call", "FromIterator::from_iter", (("call", "Problem::symbols", (SELF,)),)), "sort", ())
-    W = lambda s_: ("call", "Iterator::enumerate", (("call", "slice::windows", (s_, ("lit", 2))),))
-    ok_loop = loops in ((W(sorted_syms),), (W(alt_sorted),))
+    from .. import leaves
+    SYMS = ("call", "Problem::symbols", (SELF,))
+    sorted_ok = lambda t: isinstance(t, tuple) and t[:1] == ("upd",) and t[2] in ("sort_unstable", "sort") and t[3] == () and \
+        leaves.strip_acc(t[1]) in (("call", "FromIterator::from_iter", (SYMS,)), ("call", "Iterator::collect", (SYMS,)), SYMS)
+    nest, mapping = leaves.loop_nest(loops)
+    args = tuple(leaves.norm(leaves.replace(a, mapping)) for a in item[2])
+    pair_src = nest[0] if len(nest) == 1 else None
+    base = left = right = None
+    if isinstance(pair_src, tuple) and pair_src[:2] == ("call", "slice::windows") and pair_src[2][1:] == (("lit", 2),):
+        base = pair_src[2][0]
+        left, right = ("index", ("each", pair_src), ("lit", 0)), ("index", ("each", pair_src), ("lit", 1))
+    elif isinstance(pair_src, tuple) and pair_src[:1] == ("call",) and pair_src[1].endswith("tuple_windows") and len(pair_src[2]) == 1:
+        base = pair_src[2][0]
+        left, right = ("proj", ("each", pair_src), (("tuple", "0"),)), ("proj", ("each", pair_src), (("tuple", "1"),))
+    ok_loop = base is not None and sorted_ok(base)
     ctx.add("CHAIN", "sorted-consecutive", ok_loop and not conds, site,
-            "the axioms range over windows(2) of the *sorted* vector of self.symbols() (the source of the symbol declarations), unconditionally", construct=loops)
+            "the axioms range over the consecutive pairs of the *sorted* vector of self.symbols() (the source of the symbol declarations), unconditionally", construct=loops)
     import re as _re
     ctx.add("CHAIN", "template", _re.sub(r"\{\w*\}", "{}", item[1]) == "tff(symbol_order_{}, axiom, p__less__(f__symbolic__({}), f__symbolic__({}))).\n", site, "axiom: p__less__(f__symbolic__(s0), f__symbolic__(s1))")
     if ok_loop:
-        E = ("each", loops[0])
-        a0 = ("index", ("proj", E, (("tuple", "1"),)), ("lit", 0))
-        a1 = ("index", ("proj", E, (("tuple", "1"),)), ("lit", 1))
-        ctx.add("CHAIN", "direction", item[2][1:] == (a0, a1), site, "the smaller element of each window is the left argument of p__less__ (s[0] < s[1] after sorting)")
+        ctx.add("CHAIN", "direction", args[1:] == (leaves.norm(left), leaves.norm(right)), site, "the smaller element of each pair is the left argument of p__less__ (first < second after sorting)")
     # no other axiom text is produced by the problem printer itself
     own = [o[2][1] for o in p.out if o[2][0] == "write" and ", axiom," in o[2][1]]
     ctx.add("OWN-AXIOMS", "problem-printer", own == [item[1]], site, "the only axiom written by Display for Problem itself is the symbol order: %s" % [x[:40] for x in own])
